@@ -118,6 +118,7 @@ def main():
                     disagreements.append({"what": label, "model": "%s %s %d items" % (mdiv, moff, len(mitems)), "impl": "%s %s %d items" % (div, off, len(items)), "capture": data.hex()})
     if m:
         ck.cov["oracle_queries"] = m.queries
+        ck.cov["model_runs_skipped"] = m.skipped
         m.close()
     impl.cleanup()
     ck.cov["traces_validated_against_impl"] = hist["model_runs"]
